@@ -6,7 +6,7 @@
    stripped - products the fixed media type list of DataUriGen does not reach.  Each header is
    combined with a few payload texts.  Invariant: the design model satisfies the relation on
    every such URI (D => A); the state dump is the input set for the real helper. *)
-EXTENDS DataUriDesign, TLC
+EXTENDS DataUriDesign, DataUriAsIs, TLC
 CONSTANTS MaxTok
 VARIABLES hdr, pl
 vars == <<hdr, pl>>
@@ -42,4 +42,6 @@ DesignShrinkOK ==
   (pi.ok /\ ~(pi.b64 /\ ~d.strict)) =>
      DataUriOK(U, Design(U, "shrink"), {MediatypeNorm(pi.mt).type},
                << [in |-> d.payload, out |-> SubFn("shrink", d.payload), err |-> FALSE] >>)
+\* the transcription of the pinned code violates the relation only on the constructs K1..K5a
+AsIsOKOutsideKnown == ~DataUriOK(U, AsIsNone(U), {}, <<>>) => KnownUri(U)
 =============================================================================
